@@ -22,6 +22,8 @@ def run(rep, tier):
     rep.rule("R-FIRST-SIGN", "a raw first_step never meets a direction factor without abs()")
     rep.rule("R-MODE2-RECORD", "without t_eval every accepted step's end point is recorded (or skipped only as a duplicate / while waiting for a first output inside the span)")
     landing.r_status_success(rep, f)
+    rep.rule("R-LAND-EXACT", "a solver that decides completion by comparing its abscissa with xend assigns x = xend itself on the clipped last step (a rounded x + (xend - x) can fall an ulp short and end the run with StepSizeTooSmall)")
+    landing.r_land_exact(rep, f)
     landing.r_land_cover(rep, f)
     landing.r_land_stretch(rep, f)
     landing.r_crange_all(rep, f)
